@@ -52,7 +52,7 @@ package lpm
 //@   pure
 
 //@ func (*Txn).clone
-//@   property C01 C02 C04 C13
+//@   property C01 C02 C04 C09 C13
 //@   requires txn != nil
 //@   ensures @nil n == nil ==> result == nil
 //@   ensures @owned n != nil ==> result != nil && result.txnID == txn.txnID && (result == n || fresh(result))
@@ -60,7 +60,7 @@ package lpm
 //@   ensures @frame onlyFresh()
 
 //@ func (*Txn).Insert
-//@   property C01 C02 C04 C13
+//@   property C01 C02 C04 C09 C13
 //@   flag nosafety
 //@   flag assumepre=well-formed-LPM-keys-and-trie
 //@   maypanic
@@ -69,7 +69,7 @@ package lpm
 //@   loop 1 invariant @walk-owned (node != nil ==> node.txnID == txn.txnID) && node == *nodep && (nodep == addr(txn.root) || (isElemOf(lpmNode, nodep) && elemOwner(lpmNode, nodep).txnID == txn.txnID))
 
 //@ func (*Txn).Delete
-//@   property C01 C02 C04 C13
+//@   property C01 C02 C04 C09 C13
 //@   flag nosafety
 //@   flag assumepre=well-formed-LPM-keys-and-trie
 //@   maypanic
@@ -78,19 +78,19 @@ package lpm
 
 // Operations that let the current root escape first move the transaction to a new id.
 //@ func (*Txn).All
-//@   property C01 C02 C04 C13
+//@   property C01 C02 C04 C09 C13
 //@   requires txn != nil
 //@   ensures txn.root != nil ==> txn.txnID == old(txn.txnID) + 1
 //@ func (*Txn).Commit
-//@   property C01 C02 C04 C13
+//@   property C01 C02 C04 C09 C13
 //@   requires txn != nil
 //@   ensures result.root == txn.root && result.size == txn.size && result.prevTxnID == txn.txnID
 //@ func (*Trie).Txn
-//@   property C01 C02 C04 C13
+//@   property C01 C02 C04 C09 C13
 //@   requires l != nil
 //@   ensures result != nil && fresh(result) && result.root == l.root && result.size == l.size && result.txnID == l.prevTxnID + 1
 //@ func (*Txn).Reuse
-//@   property C01 C02 C04 C13
+//@   property C01 C02 C04 C09 C13
 //@   requires txn != nil
 //@   ensures result == txn && txn.root == trie.root && txn.size == trie.size && txn.txnID == trie.prevTxnID + 1
 
@@ -98,7 +98,7 @@ package lpm
 // work stack is a local array or freshly allocated memory, never the iterator's own stack
 // slice (a LowerBound iterator may be traversed several times).
 //@ func (*Iterator).All
-//@   property C01 C02 C04 C13
+//@   property C01 C02 C04 C09 C13
 //@   flag nosafety
 //@   flag dyncall.yield=pure
 //@   ensures @iteration-writes-only-its-own-stack onlyFresh()
